@@ -9,6 +9,7 @@ code -> spec : random histories of a compressed and an uncompressed LocalStore c
 """
 import json, os, re
 import vlib
+from checks import cli_common
 from checks import c16
 
 
@@ -32,6 +33,8 @@ def run(rep, tier, seed):
         rep.case(sc, len(sc) > 5)
     rep.sample(scs[0][:12] if scs else events[:5])
     rep.sample([e for e in events if e["ev"] == "object"][:3])
+    # store options from the config file (uncompressed: true for an absolute path or glob) against every spelling of the store path
+    cli_common.run(rep, vlib.workdir("C20-cli"), seed, "config", tier == "thorough")
     rep.rule = ("case = history of 25-40 steps by a compressed and an uncompressed client on one directory (store/has/get through LocalStore or HTTP handler+client, "
                 "remove, prune with a random keep-set, verify +- repair, damage of one client's file) over 3 chunk contents drawn from {1 byte, all-zero up to 64 KiB, "
                 "incompressible random, text}; plus cross-implementation reads (15 contents each way) and fixture stores; distinct = different history; non-trivial = > 4 steps")
@@ -39,4 +42,8 @@ def run(rep, tier, seed):
 
 
 def replay(path):
+    import json as _json
+    _r = cli_common.replay_if_cli(_json.load(open(path)), vlib.workdir("C20-cli-replay"))
+    if _r is not None:
+        return _r
     return c16.replay(path)
